@@ -58,11 +58,11 @@ func Parallel(n int, f func(i int)) {
 }
 
 type Setup struct {
-	Run    *report.Run
-	Base   string
-	Grog   string
-	GrogR  string
-	Vctl   string
+	Run   *report.Run
+	Base  string
+	Grog  string
+	GrogR string
+	Vctl  string
 }
 
 // Prepare builds the binaries and creates the scratch base directory.
